@@ -117,6 +117,8 @@ def configs(n, C, lay):
         for nc in (None, 5):
             for seed in (0, 1):
                 out.append(("KDRandomClassWrapper", dict(mode=mode, mode_kwargs=mk, num_classes=nc, seed=seed), True))
+                if mk is None:
+                    out.append(("KDRandomClassWrapper", dict(mode=mode, mode_kwargs=mk, num_classes=nc, seed=seed, _via_setters=True), True))
     for sp in (0.0, 0.5, 1.0):
         for seed in (0, 1):
             out.append(("SemiWrapper", dict(semi_percent=sp, seed=seed), True))
@@ -127,6 +129,18 @@ def configs(n, C, lay):
 
 
 def build(name, base, kw):
+    if kw.get("_via_setters"):
+        # reach the configuration through the public setters of an object that was built with another one
+        kw = {k: v for k, v in kw.items() if k != "_via_setters"}
+        other = dict(kw, seed=(kw.get("seed") or 0) + 7, num_classes=(kw.get("num_classes") or 3) + 2,
+                     mode="randperm" if kw.get("mode") != "randperm" else "random", mode_kwargs=None)
+        w = cls_of(name)(dataset=base, **other)
+        if kw.get("mode_kwargs") is not None:
+            w.mode_kwargs = kw["mode_kwargs"]
+        w.mode = kw["mode"]
+        w.num_classes = kw["num_classes"] if kw.get("num_classes") is not None else base.getdim_class()
+        w.seed = kw["seed"]
+        return w
     return cls_of(name)(dataset=base, **kw)
 
 
@@ -151,6 +165,8 @@ def kwsig(name, kw):
             keys.append(f"pseudo={'hard' if v.ndim == 1 else 'soft'}")
         elif k == "classes":
             keys.append("classes=" + type(v).__name__)
+        elif k == "_via_setters":
+            keys.append("via_setters")
         elif v is not None and k in ("threshold", "topk", "tau", "mode", "shuffle"):
             keys.append(f"{k}={'set' if k in ('threshold',) else v}")
     return ",".join(keys)
@@ -201,6 +217,23 @@ def check(name, kw, lay, C, p, inner=None):
         bad(f"exception_at_construct:{type(e).__name__}", repr(e))
         return
     p.evaluations += 1
+    if kw.get("_via_setters"):
+        # the bulk accessor is asked FIRST (as a wrapper stacked on top does in its constructor); reference: an object built
+        # directly with the final configuration
+        try:
+            first_bulk = [tolist(b) for b in L["gat"].getall(w, "class")]
+            ref_w = build(name, stack_inner(L["Base"](root_lay, root_C), inner)[0], {k: v for k, v in kw.items() if k != "_via_setters"})
+            ref_per = [tolist(ref_w.getitem_class(i)) for i in range(n)]
+            if first_bulk != ref_per:
+                bad("labels_after_setters_differ_from_fresh_object", f"bulk labels right after the setters {first_bulk}, an object "
+                    f"constructed with the same final configuration gives {ref_per}")
+                return
+        except REJECT:
+            p.count("rejected")
+            return
+        except Exception as e:
+            bad(f"exception_after_setters:{type(e).__name__}", repr(e))
+            return
     try:
         per = [tolist(w.getitem_class(i)) for i in range(n)]
         per2 = [tolist(w.getitem_class(i)) for i in range(n)]
